@@ -15,6 +15,9 @@ ASSUME = [
 ]
 SKIP_VALUE = {'sqrtf', 'sqrtd', 'convwf'}
 HARD_FLOAT = {'mulf', 'divf', 'muld', 'divd'}
+# the 32x32->64 high multiplies are decided unbounded for the emulator (C02) but not within the budget for the executor-based
+# form: bounded stand-in here
+C04_BOUNDED = {'mulhsl': (2, 'kissat'), 'mulhul': (2, 'kissat')}
 
 
 def units(tier, seed, only=None):
@@ -31,6 +34,8 @@ def units(tier, seed, only=None):
             be = None
             if name in c02.HARD_BOUNDED:
                 nb, be = c02.HARD_BOUNDED[name]
+            elif name in C04_BOUNDED:
+                nb, be = C04_BOUNDED[name]
             u = cgen.gen_unit(name, variant, tier, bounded_n=nb)
             if be:
                 u.backends = [be] + [b for b in ('kissat', 'z3', 'cvc5') if b != be]
